@@ -337,6 +337,20 @@ def check(case, ctx):
                         abs(sum(a * b for a, b in zip(nv, sv))) <= 1e-9 * wr * max(1.0, bound) * mn * max(mv, 1.0) * max(1.0, bound / mc * mv)
                     ctx.check(ok, 'normal/surface', 'normal((%r,%r), normalize=%s) = %r, exact %r' % (prm[0], prm[1], normalize, nv, wn),
                               what='normal')
+    # ---- hodograph of a shape with a degree-1 direction: its derivative has degree 0, which the library cannot represent --------------
+    if not sd['rational'] and any(d == 1 for d in degs) and pdim in (1, 2) and \
+            not any(c >= p_ for kv, p_ in zip(G.kvs_of(o), degs) if p_ > 1 for k_, c in Counter(kv[p_ + 1:len(kv) - p_ - 1]).items()):
+        ctx.tag('hodograph:degree-1')
+        try:
+            with so.quiet():
+                res = operations.derivative_curve(o) if pdim == 1 else operations.derivative_surface(o)
+        except (ValueError, Exception) as e:
+            if type(e).__name__ not in ('ValueError', 'GeomdlException'):
+                raise
+            ctx.fail('hodograph/degree-1-unsupported', 'derivative_%s raised %s for a shape of degree %r: %s'
+                     % ('curve' if pdim == 1 else 'surface', type(e).__name__, degs, e))
+        else:
+            ctx.ok('hodograph-degree-1')
     # ---- hodograph constructors (non-rational, degree >= 2 in the differentiated directions) -----------------------------------------
     if not sd['rational'] and all(d >= 2 for d in degs):
         doms = G.domains_of(o)
